@@ -17,6 +17,15 @@ def run(ctx):
         graph_replay(ctx, "Queue", "Queue", cfg, "seq_void" if void else "seq", rp, PROJ, header_fn=hdr,
                      merge_re=r"(PushResolve|UnblockResolve)$", must_take=ACTIONS,
                      constants=deep or None, extra_random=200 if ctx.quick else 2000)
+    # long single-client histories (up to 20 pushes / 20 pops, the item store grows and shrinks repeatedly and its
+    # read position moves): cheap on the specification (a few thousand states) and the only way to reach behaviour
+    # that depends on the capacity of the underlying container (growth while wrapped, 4 -> 8 -> 16 -> 32)
+    for void in (False, True):
+        def hdr2(k, st0, void=void):
+            return {"void": void, "mode": "coro" if k % 2 else "poll"}
+        graph_replay(ctx, "Queue", "Queue", "Queue_seq_void_long.cfg" if void else "Queue_seq_long.cfg", "long_void" if void else "long", rp, PROJ,
+                     header_fn=hdr2, merge_re=r"(PushResolve|UnblockResolve)$", must_take=["PushCS", "PopCS"],
+                     max_paths=600 if ctx.quick else None, extra_random=100 if ctx.quick else 1000)
     conc_replay(ctx)
 
 
